@@ -226,6 +226,9 @@ def run(ctx):
     r4(ctx)
 
 
+RULE_FUNCS = [r1, r2, r3, r4]
+
+
 def _drop_kw(fn_name, kw):
     def edit(text):
         import re
